@@ -759,7 +759,10 @@ func (w *World) oracleC08Failed(br *bindReport) {
 	// a pre-owned IP keeps the allocation for the retry by design.
 	// ... or the documented refusal to reuse an IP that still carries the previous incarnation's UID ("if that is not
 	// possible": nothing may have been allocated for the other ranges by then)
-	inScope := strings.Contains(br.Err, "no enough available ips") || strings.Contains(br.Err, "enumerated fault") || strings.Contains(br.Err, "waiting for delete event")
+	inScope := strings.Contains(br.Err, "no enough available ips") || strings.Contains(br.Err, "enumerated fault") || strings.Contains(br.Err, "waiting for delete event") ||
+		// "ip allocated to <key> is gone": the lookup after the allocation did not find what was just allocated; C08 runs have
+		// no reload or release that could take it away, so the request was satisfiable and nothing may stay allocated
+		strings.Contains(br.Err, "is gone, retry later")
 	if strings.Contains(br.Err, "update pod ") || strings.Contains(br.Err, "failed to assign ip") || strings.Contains(br.Err, "release policy") {
 		inScope = false
 	}
